@@ -184,7 +184,11 @@ func (z *Zone) nsec3RR(i int) *dns.NSEC3 {
 	if z.OptOut {
 		flags = 1
 	}
-	return &dns.NSEC3{Hdr: dns.RR_Header{Name: strings.ToLower(e.hash) + "." + z.Name, Rrtype: dns.TypeNSEC3, Class: dns.ClassINET, Ttl: z.SOAMin},
+	owner := strings.ToLower(e.hash) + "." + z.Name
+	if z.Name == "." {
+		owner = strings.ToLower(e.hash) + "."
+	}
+	return &dns.NSEC3{Hdr: dns.RR_Header{Name: owner, Rrtype: dns.TypeNSEC3, Class: dns.ClassINET, Ttl: z.SOAMin},
 		Hash: dns.SHA1, Flags: flags, Iterations: z.Iter, SaltLength: uint8(len(z.Salt) / 2), Salt: z.Salt,
 		HashLength: 20, NextDomain: next.hash, TypeBitMap: sortTypes(e.types)}
 }
